@@ -73,6 +73,48 @@ CLAIMED["C17"] = dict(
     design="§5 C17, §6-F4", technique="Lean 4 proof (monotone-TAT potential argument for any order; kernel-evaluated counter-example for the false clause) + differential correspondence on non-monotone histories + re-execution probes",
     note=COMMON_NOTE + " Known finding: sweep + clock regression mints budget; not repaired (needs global clock or Store-trait change).")
 
+PART = " PARTIAL in this respect: tokio (mpsc bounded FIFO, oneshot, task scheduling), TCP and the OS are ASSUMED to implement the transition rules of the model; exhaustive enumeration of real schedules for small configurations and socket-level runs validate that assumption, they do not prove it."
+CLAIMED["C09"] = dict(
+    text="Proof (Lean 4) over a labelled transition system of the actor pipeline (any number of clients, any programs, any queue capacity >= 1, any limiter): in every reachable state the limiter state and all computed responses are the sequential fold of the limiter over the proc log (C09_sequential), every ret delivers the response computed at that request's proc (C09_delivery), the proc order extends program order and real-time precedence (C09_order) - hence linearizable with the proc log as witness (C09_linearizable); N same-instant unit requests on a fresh key admit exactly min(N,B), proved for the GCRA instance (C09_burst_gcra). "
+         "Tie: the REAL actor loop (hook: unspawned future) and real throttle() futures polled by a deterministic scheduler - exhaustive schedules for small configurations, random for larger - every recorded trace must be accepted by the Lean LTS validator with the GCRA model recomputing each response; plus one in-process server with HTTP+gRPC+RESP on loopback sockets." + PART,
+    design="§5 C09", technique="Lean 4 invariant proofs over an LTS (history variables) + trace validation of the real actor under a controlled scheduler",
+    note=COMMON_NOTE + PART)
+CLAIMED["C10"] = dict(
+    text="Proof (Lean 4): exactly-once (C10_exactly_once), back-pressure without loss (C10_backpressure), FIFO (C10_fifo), no deadlock with a strictly decreasing measure and complete final states (C10_no_deadlock, _total), cancellation before/after enqueue does not disturb the proc log or other clients (C10_cancel_noninterference); RESP connection: for every chunking the bytes written are the replies to the frames of the whole stream, in order, up to QUIT/error/overflow (C10_resp_one_reply_per_command, C10_resp_prefix). "
+         "Tie: scheduler-driven traces with capacity down to 1 and cancellation at every poll boundary validated by the Lean LTS; real TCP connections fed pipelines under several chunkings compared with the connection model byte for byte." + PART,
+    design="§5 C10", technique="Lean 4 LTS invariants + termination measure; connection-loop induction over chunkings; trace validation and socket-level differential runs",
+    note=COMMON_NOTE + PART)
+CLAIMED["C11"] = dict(
+    text="Proof (Lean 4): if the limiter step is total the actor never dies and fail/actorPanic never occur (C11_actor_never_dies) - totality of the real limiter for all i64 inputs is C08; after any reachable state a probe gets exactly the sequential answer (C11_probe_correct, C11_probe_fresh_key via C05); the hypothesis is necessary (C11_poison_without_totality: the pinned tree's panic is exactly that run); RESP decode errors / overflow end only that connection's model (C13). "
+         "Tie: hostile prefixes (i64 lattice on every transport, malformed frames, abrupt closes, oversize buffers) then a probe on a new connection, against the real server." + PART,
+    design="§5 C11", technique="Lean 4 proof (LTS + C08 totality + C05 isolation) + hostile-prefix/probe runs against the real server",
+    note=COMMON_NOTE + PART)
+CLAIMED["C12"] = dict(
+    text="Proof (Lean 4) about the mapping model: durations on the wire are the library's truncated to whole seconds (C12_seconds_floor), omitted quantity = 1 on HTTP and RESP, RESP :int and bulk-decimal arguments denote the same request, reply layout [allowed,limit,remaining,reset_after,retry_after], gRPC int32 round-trip and field numbers, same logical request -> same library request -> same answer on all three transports, malformed / wrong-arity / non-numeric RESP requests send nothing to the limiter. "
+         "The mapping TABLES (field order of the RESP reply, gRPC/HTTP struct literals, defaults, proto numbers, as_secs) are regenerated from the Rust sources on every run and tied by decide-checked theorems (C12_tie_*), so a swapped field or changed default breaks a proof obligation. M/O: real command handler with a real actor; loopback sockets with each request routed to a random protocol/encoding, compared field by field with what the actor log says the library decided. JSON/protobuf/HTTP decoding (serde, prost, axum, tonic) is trusted.",
+    design="§5 C12", technique="Lean 4 proof over a mapping model + source-regenerated tables tied by decide + socket-level differential runs",
+    note=COMMON_NOTE + " serde/prost/axum/tonic decoding trusted; gRPC durations >= 2^31 s are outside the int32 domain.")
+CLAIMED["C13"] = dict(
+    text="Proof (Lean 4) for EVERY byte list: consumed within 1..len and index safety, size/nesting limits enforced, parser depth restored, an ok/error outcome is stable under every extension of the buffer, every strict prefix of a complete frame is 'need more data' (C13_prefix_stable_*, C13_strict_prefix_incomplete), chunking invariance of the connection loop when no run overflows plus exact overflow conditions (C13_chunking_invariant, C13_no_overflow, C13_long_frame_overflows), buffer cap 65536 (C13_buffer_cap). "
+         "M/O: ALL byte strings up to length 4 (thorough 5) over the 13-symbol protocol alphabet + generated frames with mutations through the real RespParser vs the model; real TCP connections under several chunkings. Observation (not a violation of the property as quantified): frames of 64513..65536 bytes overflow or not depending on where reads fall.",
+    design="§5 C13", technique="Lean 4 proof by structural induction on nesting fuel and element count; exhaustive small-string differential runs against the real parser",
+    note=COMMON_NOTE + " Allocation behaviour (Vec::with_capacity for declared sizes) is not modelled; the socket loop's reads are assumed to deliver the chunks the model is given.")
+CLAIMED["C14"] = dict(
+    text="Proof (Lean 4): for every well-formed value (valid UTF-8, simple strings/errors without CR LF, sizes and depth within limits) and every suffix, decode(encode v ++ x) = (v, |encode v|) (C14_roundtrip); every decoded value is well-formed (C14_parsed_wellformed); every reply the command layer produces for a decoded command - any name, any arguments, any upper-casing result, any limiter answer - is well-formed, hence exactly one frame (C14_reply_single_frame, _parsed, C14_respond_single_frame). "
+         "M/O: recursively generated values through the real serializer/parser; every reply of the real handler serialised and parsed back.",
+    design="§5 C14", technique="Lean 4 proof (round-trip by structural induction; well-formedness preservation of the command layer) + differential runs",
+    note=COMMON_NOTE + " to_uppercase() is an oracle input (theorems quantify over every result string); limiter error texts are assumed valid UTF-8 without CR LF (they are fixed ASCII).")
+CLAIMED["C15"] = dict(
+    text="Proof (Lean 4): for every set of record events and EVERY interleaving of their atomic increments, at every quiescent state total = http+grpc+redis = allowed+denied+errors (C15_identities via the accounting invariant C15_accounting), counters never decrease, denied/allowed/errors equal the numbers of events of that kind (C15_denied_exact); the RESP handler records 'denied' exactly for a THROTTLE that was sent and answered allowed=false, its three early returns record nothing (C15_resp_classification, C15_resp_uncounted); export carries the counter values; the increment lists are tied to the table regenerated from metrics.rs (C15_table_tie). "
+         "M/O: event lists vs the model, 8 OS threads on one Metrics with identities at barriers, which counter each real RESP command moved, /metrics scraped over HTTP and compared with what clients saw." + " PARTIAL: atomicity of fetch_add and the transports' call sites for HTTP/gRPC are validated by the runs, not proved.",
+    design="§5 C15", technique="Lean 4 invariant proof over all interleavings of atomic increments + source-regenerated increment table + multi-threaded stress and socket-level runs",
+    note=COMMON_NOTE + " AtomicU64::fetch_add is one atomic step (Rust/LLVM memory model trusted).")
+CLAIMED["C16"] = dict(
+    text="Proof (Lean 4), for every denial stream, every tie-breaking of the eviction/report sort and every size: table length <= 3*max after every update (<= 3*max+1 inside one) (C16_size_bound), never above the true count, exact while distinct keys <= max, keys > 256 bytes ignored, report length <= max with non-increasing counts and omitted <= listed (C16_report), size clamp to 10000 and 0 => nothing kept or exported (C16_clamp), and for EVERY key string the escaped label contains no CR/LF and a label lexer stops exactly at the exporter's closing quote (C16_escape_safe, C16_line_shape). "
+         "M/O: the real table before/after every update and every report checked by the model's relational validators (hook accessors), escaped labels compared byte for byte, export parsed back line by line.",
+    design="§5 C16", technique="Lean 4 proof over a relational model (ties unspecified) + relational validation of the real tracker through hooks",
+    note=COMMON_NOTE + " HashMap iteration order is modelled as an arbitrary tie-break; \\t \\r \\xNN are not Prometheus escapes (observation, outside the property).")
+
 NOT_YET = "check under construction in this session (model + theorems + correspondence not yet registered)"
 
 def main():
@@ -105,6 +147,7 @@ def main():
         engines=[
             dict(name="lean-model", path="lean/", serves_properties=ALL, kind_free_text="Lean 4 models, lemmas, property theorems, compiled line-protocol driver"),
             dict(name="core-harness", path="harness/core", serves_properties=["C01", "C02", "C03", "C04", "C05", "C06", "C07", "C08", "C17", "C18"], kind_free_text="Rust harness linking /repo/throttlecrab (feature verif): case generation, execution of the real code, property oracles"),
+            dict(name="server-harness", path="harness/server", serves_properties=["C09", "C10", "C11", "C12", "C13", "C14", "C15", "C16"], kind_free_text="Rust harness linking /repo/throttlecrab-server (feature verif): in-process RESP codec/handler runs, deterministic scheduler over the real actor future, loopback-socket runs of the three transports, metrics stress"),
             dict(name="translator", path="translate/translate.py", serves_properties=ALL, kind_free_text="regenerates lean/TcVerif/Gen/Consts.lean (constants, tables) from /repo's sources on every run"),
         ],
         checks=checks,
